@@ -183,11 +183,11 @@ Definition infer_fn (G : env) (f : Z) (rs : list qu) : ures qu :=
     match rs with r :: _ => UOk (fst r, mabs (snd r)) | [] => UOther end
   else if (f =? fn_floor) || (f =? fn_ceiling) then
     match rs with
-    | r :: _ => UOk (fst r, match snd r with
-                            | MNum q _ => MNum (inject_Z (if f =? fn_floor then Qfloor q else Qceil q)) false
-                            | MIrr => MIrr
-                            | _ => one_int
-                            end)
+    | r :: _ => match snd r with
+                | MNum q _ => UOk (fst r, MNum (inject_Z (if f =? fn_floor then Qfloor q else Qceil q)) false)
+                | MIrr => UUnsupp       (* floor of an untracked float may be 0: a later 1/x raises or not -- declined *)
+                | _ => UOk (fst r, one_int)
+                end
     | [] => UOther
     end
   else if (f =? fn_log) || (f =? fn_factorial) || is_trig f then
